@@ -22,8 +22,19 @@ func init() {
 			{Pkg: "./metrics", Func: "ZZLzcntPortable", Name: "lzcnt-portable-vs-spec-and-asm", Reach: []string{"lzcnt"}, Bounds: "all 2^64 inputs; portable body re-emitted from metrics/lzcnt.go on every run"},
 			{Pkg: "./metrics", Func: "ZZBucketBound", Reach: []string{"bucket"}, Bounds: "all n <= 2^63-1"},
 			{Pkg: "./metrics", Func: "ZZBucketMonotone", Reach: []string{"bucket2"}, Bounds: "all n < 2^63-1 (successor form)"},
+			{Pkg: "./metrics", Func: "ZZHistSequential", Params: map[string]int64{"m": 2}, Reach: []string{"periods-read"}, Bounds: "fresh unsampled histogram, two reporting periods of 0..2 symbolic observations (0..2^63-1) each, read back through getAllHistograms / getAllBucketHistograms: count, 23 percentiles within [min,max] and among the period's observations, kept, bucket counters; getBucket summarised (decided separately for all inputs)"},
+			{Pkg: "./metrics", Func: "ZZHistWrap", Reach: []string{"wrapped"}, Bounds: "one observation from a ring holding 32766..32769 kept observations (wrap-around of the 32768-slot ring)"},
+			{Pkg: "./metrics", Func: "ZZCounters", Params: map[string]int64{"k": 2}, Sched: true, Race: true, Reach: []string{"counted"}, Bounds: "2 goroutines x 2 symbolic increments (IncCounter / IncCounterBy), every interleaving at atomic operations; counter memory watched for non-atomic access; value read back through getAllCounters"},
+			{Pkg: "./metrics", Func: "ZZHistConcurrent", Params: map[string]int64{"m": 2}, Sched: true, Race: true, Reach: []string{"both-periods-read"}, Bounds: "one observer (2 symbolic observations) against the period switch (extractHist), every interleaving at atomic and lock operations: both resulting periods are consistent; histogram state watched for plain access outside the lock"},
 		},
-		Assumptions: append([]string{"A10: lzcnt_amd64.s translated by a 9-mnemonic Plan-9 subset translator; BSRQ's destination on zero input is an arbitrary value"}, stdAssumptions...),
+		Thorough: []Job{
+			{Pkg: "./metrics", Func: "ZZHistSequential", Name: "hist-sequential-3", Params: map[string]int64{"m": 3}, Reach: []string{"periods-read"}, Bounds: "two reporting periods of 0..3 symbolic observations each"},
+			{Pkg: "./metrics", Func: "ZZHistConcurrent", Name: "hist-observer-vs-reader-3", Params: map[string]int64{"m": 3}, Sched: true, Race: true, Reach: []string{"both-periods-read"}, Bounds: "one observer making 3 symbolic observations against the period switch, every interleaving at atomic and lock operations"},
+			{Pkg: "./metrics", Func: "ZZCounters", Name: "counters-3", Params: map[string]int64{"k": 3}, Sched: true, Race: true, Reach: []string{"counted"}, Bounds: "2 goroutines x 3 symbolic increments"},
+		},
+		Assumptions: append([]string{"A10: lzcnt_amd64.s translated by a 9-mnemonic Plan-9 subset translator; BSRQ's destination on zero input is an arbitrary value",
+			"histograms: unsampled mode only (the only mode rend registers); multisets of at most 2 (quick) / 3 (thorough) observations per period; the float average and the HTTP text rendering are not compared",
+			"A5 mutex model; scheduling points at every sync/atomic operation and lock operation; the 2-observer interleaving is outside the bound"}, stdAssumptions...),
 	})
 
 	orcaStep := func(only []string, extra map[string]int64, bounds string) Job {
@@ -132,7 +143,7 @@ func init() {
 		"node label sets are enumerated (sizes and seed below), weights are 1; Hash(key)=Bucket(first 4 bytes of md5(key)) is covered through the ring location being an arbitrary 32-bit value",
 	}, stdAssumptions...),
 		Quick:    []Job{ring(1, 0, rb), ring(2, 0, rb), ring(3, 0, rb), ring(4, 1, rb), ring(8, 2, rb)},
-		Thorough: []Job{ring(3, 7, rb), ring(5, 3, rb), ring(16, 4, rb), ring(32, 5, rb)}})
+		Thorough: []Job{ring(3, 7, rb), ring(5, 3, rb), ring(16, 4, rb), ring(25, 3, rb), ring(30, 6, rb), ring(32, 5, rb)}})
 
 	ck := func(fn string, params map[string]int64, reach, bounds string, qt int) Job {
 		name := fn
@@ -241,6 +252,7 @@ func init() {
 		Quick: []Job{
 			{Pkg: "./zz_verif/wire", Func: "ZZBinaryHeader", Reach: []string{"loop-returned", "contradictory-frame"}, Bounds: "all 2^8 opcodes x 2^16 key lengths x 2^8 extras lengths x 2^32 total lengths x opaque/cas/vbucket, body <= 23 bytes"},
 			{Pkg: "./zz_verif/wire", Func: "ZZTextLine", Params: map[string]int64{"len": 6}, Reach: []string{"loop-returned"}, Bounds: "every 6-byte ASCII command line"},
+			{Pkg: "./zz_verif/wire", Func: "ZZTextTruncatedSet", Reach: []string{"loop-returned"}, Bounds: "text set/add/replace/append/prepend with a 2-byte data block; stream ends at every offset from the end of the command line to the end of the trailer; data and trailer bytes arbitrary"},
 		},
 		Thorough: []Job{
 			{Pkg: "./zz_verif/wire", Func: "ZZBinaryHeader", Name: "ZZBinaryHeader-anymagic", Params: map[string]int64{"anymagic": 1}, Reach: []string{"loop-returned"}, Bounds: "as quick, first byte symbolic too"},
